@@ -58,7 +58,7 @@ def build_and_run(ctx, tag, lib):
     elif diffs or len(a) != len(b):
         st = "differs"
     res = {"status": st, "diffs": diffs[:4], "missing": missing, "lines": (len(a), len(b)), "detail": (o2.stderr or o1.stderr)[-900:],
-           "yaml": open(d + "/eq.yaml").read(), "calls": len(lib["funcs"])}
+           "yaml": open(d + "/eq.yaml").read(), "calls": len(lib["funcs"]) + len(lib.get("specials", {}).get("direct", []))}
     if st == "ok":
         shutil.rmtree(d, ignore_errors=True)
     return res
@@ -70,7 +70,8 @@ def run(ctx):
                      "inout/out, const std::string&, const char*, std::string& out/inout, array + implied size, class by const reference "
                      "and by pointer} and results {void, int, long, double, bool, enum, std::string, const std::string&, const char*}; "
                      "argument values include 0, +-1, INT_MIN/MAX, beyond-int longs, empty / blank-containing / 15-character strings, "
-                     "empty arrays. non-trivial = distinct (library, call)")
+                     "empty arrays; plus, in every library, functions and a method with trailing default arguments called at every arity, a function "
+                     "template with two instantiations, and array results (rank 1 and 2). non-trivial = distinct (library, call)")
     ctx.assume += ["the flow extractor tools/cflow.py (regular expressions over the generated wrapper text) is trusted; statements it does "
                    "not recognise make the wrapper fail the check (fail closed)",
                    "result passing (return value conversions) is covered by the runs, not by a theorem",
